@@ -1,0 +1,20 @@
+//go:build verif
+
+package types
+
+// Hooks for the verification harness (/verif). Compiled only with -tags verif.
+
+// InferFunHook exposes inferFun: instantiate f against the argument types.
+func InferFunHook(f *FunTy, args []*Type) *FunTy { return inferFun(f, args) }
+
+// SlotFreeHook exposes slotFree.
+func SlotFreeHook(t *Type) bool { return slotFree(t) }
+
+// ApplySubstHook exposes applySubst.
+func ApplySubstHook(t *Type, m map[string]*Type) *Type { return applySubst(t, m) }
+
+// NewTyVarExact builds a type variable with exactly this name (TyVar appends a counter).
+func NewTyVarExact(name string) *Type {
+	t := TypeVariable{Type{KTyVar}, name}
+	return &t.Type
+}
